@@ -109,7 +109,7 @@ Proof.
     + intros a' L0 H0. destruct (N.eq_dec (tsender ex) a') as [<-|Hne]; [rewrite afind_adel_eq in H0; discriminate|].
       rewrite afind_adel_neq in H0 by auto. auto.
     + intros t Ht. destruct (N.eq_dec (tsender ex) (tsender t)) as [Es|Hne].
-      * rewrite (Hnone (tnonce t)) in (Hkeep t Ht (eq_sym Es)). discriminate.
+      * pose proof (Hkeep t Ht (eq_sym Es)) as Hk. rewrite (Hnone (tnonce t)) in Hk. discriminate.
       * rewrite afind_adel_neq by auto. apply remove_id_In in Ht. apply I5. tauto.
     + intros a' L0 n u H0 Hu. destruct (N.eq_dec (tsender ex) a') as [<-|Hne]; [rewrite afind_adel_eq in H0; discriminate|].
       rewrite afind_adel_neq in H0 by auto. eapply Hother; eauto.
@@ -150,4 +150,296 @@ Lemma remove_tx_verified : forall id p, verified (fst (remove_tx id p)) = verifi
 Proof.
   intros. unfold remove_tx. destruct (find_id id (all p)); auto.
   destruct (afind (tsender t) (accts p)); [destruct (l_size _ =? 0)%nat|]; reflexivity.
+Qed.
+
+(* ---------------- eviction ---------------- *)
+Lemma In_afind : forall (V : Type) (l : list (N * V)) k v, NoDup (map fst l) -> In (k, v) l -> afind k l = Some v.
+Proof.
+  induction l as [|[k' v'] r IH]; simpl; intros k v Hnd Hin; [contradiction|]. inversion Hnd; subst.
+  destruct Hin as [H|H].
+  - inversion H; subst. rewrite N.eqb_refl. auto.
+  - destruct (k' =? k) eqn:E; [|auto]. apply N.eqb_eq in E. subst. exfalso. apply H1.
+    apply in_map_iff. exists (k, v). auto.
+Qed.
+
+Lemma pick_min_In : forall cands ch t, pick_min cands ch = Some t -> In t cands.
+Proof.
+  intros cands ch t H. unfold pick_min in H. destruct cands as [|c0 r]; [discriminate|].
+  remember (filter (fun t0 => tprio t0 =? min_prio (c0 :: r)) (c0 :: r)) as valid eqn:Evalid.
+  assert (Hv : forall x, In x valid -> In x (c0 :: r)) by (intros x Hx; subst valid; apply filter_In in Hx; tauto).
+  clear Evalid.
+  destruct (find (fun t0 => existsb (N.eqb (tid t0)) ch) valid) eqn:Ef.
+  - inversion H; subst. apply find_some in Ef. destruct Ef as [Ef _]. apply Hv. exact Ef.
+  - destruct valid as [|v0 vr].
+    + inversion H; subst. left; auto.
+    + inversion H; subst. apply Hv. left; auto.
+Qed.
+Lemma pick_min_some : forall cands ch, cands <> [] -> pick_min cands ch <> None.
+Proof.
+  intros cands ch H. unfold pick_min. destruct cands; [congruence|]. destruct (find _ _); [discriminate|].
+  destruct (filter _ _); discriminate.
+Qed.
+
+Lemma cands_in_all : forall c p t, PoolInv c p -> In t (unprocessable_cands p) \/ In t (processable_cands p) -> In t (all p).
+Proof.
+  intros c p t HI H. destruct HI as [I1 I2 I3 I4 I5 I6 I7 I8]. destruct H as [H|H].
+  - unfold unprocessable_cands in H. apply in_flat_map in H. destruct H as ([a L] & Hin & Ht). simpl in Ht.
+    apply get_unprocessables_stored in Ht. destruct Ht as (n & Hn). apply (I6 a L n t); auto. apply In_afind; auto.
+  - unfold processable_cands in H. apply in_flat_map in H. destruct H as ([a L] & Hin & Ht). simpl in Ht.
+    destruct (rev (get_processables L)) as [|u r] eqn:Er; [contradiction|]. destruct Ht as [<-|[]].
+    assert (In u (get_processables L)) by (apply in_rev; rewrite Er; left; auto).
+    apply get_processables_stored in H. destruct H as (n & _ & Hn). apply (I6 a L n u); auto. apply In_afind; auto.
+Qed.
+
+Lemma cands_nonempty : forall c p, PoolInv c p -> all p <> [] -> unprocessable_cands p <> [] \/ processable_cands p <> [].
+Proof.
+  intros c p HI Hne. destruct HI as [I1 I2 I3 I4 I5 I6 I7 I8]. destruct (all p) as [|t0 r] eqn:Ea; [congruence|].
+  destruct (I5 t0 (or_introl eq_refl)) as (L & HL & Hn). destruct (I4 _ _ HL) as [HLI HLne].
+  pose proof (afind_In _ _ _ HL) as Hin.
+  destruct (candidates_nonempty _ _ _ HLI HLne) as [H|H].
+  - left. unfold unprocessable_cands. intros Hc. destruct (get_unprocessables L) as [|u us] eqn:Eu; [congruence|].
+    assert (In u (flat_map (fun al => get_unprocessables (snd al)) (accts p))).
+    { apply in_flat_map. exists (tsender t0, L). split; auto. simpl. rewrite Eu. left; auto. }
+    rewrite Hc in H0. contradiction.
+  - right. unfold processable_cands. intros Hc. destruct (rev (get_processables L)) as [|u us] eqn:Eu.
+    + apply (f_equal (@rev tx)) in Eu. rewrite rev_involutive in Eu. simpl in Eu. congruence.
+    + assert (In u (flat_map (fun al => match rev (get_processables (snd al)) with t :: _ => [t] | [] => [] end) (accts p))).
+      { apply in_flat_map. exists (tsender t0, L). split; auto. simpl. rewrite Eu. left; auto. }
+      rewrite Hc in H0. contradiction.
+Qed.
+
+Lemma evict_inv : forall c ch p, PoolInv c p -> PoolInv c (fst (evict ch p)).
+Proof.
+  intros. unfold evict. destruct (pick_min (unprocessable_cands p) ch); cbn [fst]; [apply remove_tx_inv; auto|].
+  destruct (pick_min (processable_cands p) ch); cbn [fst]; [apply remove_tx_inv; auto|auto].
+Qed.
+
+Lemma evict_length : forall c ch p, PoolInv c p -> all p <> [] ->
+  (length (all (fst (evict ch p))) + 1 = length (all p))%nat.
+Proof.
+  intros c ch p HI Hne. pose proof (cands_nonempty c p HI Hne) as Hc. unfold evict.
+  assert (Hrm : forall t, In t (all p) -> (length (all (fst (remove_tx (tid t) p))) + 1 = length (all p))%nat).
+  { intros t Ht. rewrite remove_tx_all. eapply remove_id_length_found; eauto. apply HI. }
+  destruct (pick_min (unprocessable_cands p) ch) as [t|] eqn:E1; cbn [fst].
+  - apply Hrm. eapply cands_in_all; eauto. left. eapply pick_min_In; eauto.
+  - destruct (pick_min (processable_cands p) ch) as [t|] eqn:E2; cbn [fst].
+    + apply Hrm. eapply cands_in_all; eauto. right. eapply pick_min_In; eauto.
+    + exfalso. destruct Hc as [Hc|Hc]; [apply (pick_min_some _ ch) in Hc|apply (pick_min_some _ ch) in Hc]; congruence.
+Qed.
+
+Lemma evict_all_incl : forall ch p t, In t (all (fst (evict ch p))) -> In t (all p).
+Proof.
+  intros ch p t. unfold evict. destruct (pick_min (unprocessable_cands p) ch); cbn [fst].
+  - rewrite remove_tx_all. intros H. apply remove_id_In in H. tauto.
+  - destruct (pick_min (processable_cands p) ch); cbn [fst]; auto.
+    rewrite remove_tx_all. intros H. apply remove_id_In in H. tauto.
+Qed.
+
+(* ---------------- Add ---------------- *)
+Lemma pool_add_inv : forall c t v pub ch p, cfg_ok c -> PoolInv c p -> PoolInv c (fst (pool_add c t v pub ch p)).
+Proof.
+  intros c t v pub ch p [Hc1 Hc2] HI. unfold pool_add.
+  destruct (existsb (fun u => tid u =? tid t) (all p)) eqn:Edup; [exact HI|].
+  destruct (tprio t <? min_entrance c); [exact HI|].
+  destruct ((max_txs c <=? length (all p))%nat && negb (is_nil (queue p)) && (tprio t <=? min_prio (queue p))); [exact HI|].
+  destruct (is_invalid v); [exact HI|].
+  destruct (if (max_txs c <=? length (all p))%nat then evict ch p else (p, None)) as [p1 ev] eqn:Epe.
+  assert (Hp1 : PoolInv c p1 /\ (length (all p1) + 1 <= max_txs c)%nat /\ (forall u, In u (all p1) -> In u (all p))).
+  { destruct (max_txs c <=? length (all p))%nat eqn:Efull.
+    - apply Nat.leb_le in Efull. assert (p1 = fst (evict ch p)) by (rewrite Epe; auto). subst p1.
+      split; [apply evict_inv; auto|]. split; [|apply evict_all_incl].
+      assert (all p <> []) by (destruct (all p); simpl in *; [lia|discriminate]).
+      pose proof (evict_length c ch p HI H). pose proof (inv_size c p HI). lia.
+    - apply Nat.leb_gt in Efull. inversion Epe; subst. split; auto. split; [lia|auto]. }
+  destruct Hp1 as (HI1 & Hsz & Hincl).
+  assert (Hfresh : forall u, In u (all p1) -> tid u <> tid t).
+  { intros u Hu E. apply Hincl in Hu. rewrite <- not_true_iff_false in Edup. apply Edup. apply existsb_exists.
+    exists u. split; auto. apply N.eqb_eq. auto. }
+  clear Epe HI Hincl Edup. destruct HI1 as [I1 I2 I3 I4 I5 I6 I7 I8].
+  set (L := match afind (tsender t) (accts p1) with Some L => L | None => empty_list end).
+  assert (HLI : ListInv (max_per c) (tsender t) L).
+  { unfold L. destruct (afind (tsender t) (accts p1)) eqn:EL; [apply (I4 _ _ EL)|apply empty_list_inv]. }
+  assert (HLfound : forall n u, afind n (txs L) = Some u -> afind (tsender t) (accts p1) = Some L).
+  { unfold L. destruct (afind (tsender t) (accts p1)) eqn:EL; auto. simpl. intros; discriminate. }
+  assert (HLprocs : forall n, In n (procs L) -> afind (tsender t) (accts p1) = Some L).
+  { unfold L. destruct (afind (tsender t) (accts p1)) eqn:EL; auto. simpl. contradiction. }
+  destruct (list_add (max_per c) (min_diff c) t false L) as [[L' ok] removed] eqn:Eadd.
+  destruct ok; cbn [negb fst].
+  2: { destruct (afind (tsender t) (accts p1)) eqn:EL; [constructor; auto|].
+       exfalso. pose proof (list_add_empty_ok (max_per c) (min_diff c) t Hc2) as Hok. unfold L in Eadd. rewrite Eadd in Hok. discriminate. }
+  pose proof (list_add_inv (max_per c) (min_diff c) (tsender t) t false L Hc2 eq_refl HLI) as HL'I. rewrite Eadd in HL'I. cbn [fst] in HL'I.
+  destruct (list_add_spec _ _ _ _ _ _ _ Hc2 HLI Eadd) as (S1 & S2 & S3 & S4 & S5 & _).
+  set (all1 := match removed with Some rid => remove_id rid (all p1) | None => all p1 end).
+  assert (F1 : forall u, In u all1 -> In u (all p1) /\ (forall rid, removed = Some rid -> tid u <> rid)).
+  { intros u Hu. unfold all1 in Hu. destruct removed as [rid|]; [apply remove_id_In in Hu; split; [tauto|]|split; [auto|intros; discriminate]].
+    intros r0 Hr. inversion Hr; subst. tauto. }
+  assert (F2 : forall u, In u (all p1) -> (forall rid, removed = Some rid -> tid u <> rid) -> In u all1).
+  { intros u Hu Hn. unfold all1. destruct removed as [rid|]; auto. apply remove_id_In. split; auto. }
+  assert (F3 : NoDup (map tid all1)) by (unfold all1; destruct removed; [apply remove_id_nodup|]; auto).
+  assert (F4 : (length all1 <= length (all p1))%nat) by (unfold all1; destruct removed; [apply remove_id_length|lia]).
+  assert (Hq : match removed with Some _ => all1 | None => queue p1 end = all1) by (unfold all1; destruct removed; auto).
+  rewrite Hq. clear Hq.
+  (* the transaction whose id is [removed] sits in the sender's list *)
+  assert (Hrem : forall rid u, removed = Some rid -> In u (all p1) -> tid u = rid ->
+            exists k, afind k (txs L) = Some u /\ (k = tnonce t \/ afind k (txs L') = None)).
+  { intros rid u Hr Hu Eu. destruct (S4 _ Hr) as (k & w & Hk & Hw & Hor). exists k.
+    assert (In w (all p1)) by (eapply I6; eauto).
+    assert (u = w) by (apply (same_id_same_tx (all p1)); auto; congruence). subst w. auto. }
+  constructor; cbn [all accts queue pending verified].
+  - rewrite map_app. simpl. apply NoDup_app_ok; auto. intros Hin. apply in_map_iff in Hin. destruct Hin as (u & Eu & Hu).
+    apply F1 in Hu. apply (Hfresh u); tauto.
+  - reflexivity.
+  - apply NoDup_aset; auto.
+  - intros a' L0 H0. destruct (N.eq_dec (tsender t) a') as [<-|Hne].
+    + rewrite afind_aset_eq in H0. inversion H0; subst L0. split; auto. destruct HL'I as (_ & H2 & _).
+      assert (In (tnonce t) (nonces L')) by (apply H2; congruence). intros X. rewrite X in H. contradiction.
+    + rewrite afind_aset_neq in H0 by auto. auto.
+  - intros u Hu. apply in_app_or in Hu. destruct Hu as [Hu|[<-|[]]].
+    + destruct (F1 u Hu) as [Hu1 Hnr]. destruct (I5 u Hu1) as (Lu & HLu & Hnu).
+      destruct (N.eq_dec (tsender t) (tsender u)) as [Es|Hne].
+      * rewrite <- Es. rewrite afind_aset_eq. exists L'. split; auto.
+        assert (Lu = L). { unfold L. rewrite Es. rewrite HLu. auto. } subst Lu.
+        destruct (S3 _ _ Hnu) as [H|H]; auto. exfalso. eapply Hnr; eauto.
+      * rewrite afind_aset_neq by auto. eauto.
+    + rewrite afind_aset_eq. eauto.
+  - intros a' L0 n u H0 Hu. apply in_or_app. destruct (N.eq_dec (tsender t) a') as [<-|Hne].
+    + rewrite afind_aset_eq in H0. inversion H0; subst L0.
+      destruct (N.eq_dec n (tnonce t)) as [->|Hnn].
+      * rewrite S1 in Hu. inversion Hu; subst. right; left; auto.
+      * left. pose proof (S2 _ _ Hnn Hu) as HuL. pose proof (HLfound _ _ HuL) as HLf.
+        assert (Hu1 : In u (all p1)) by (eapply I6; eauto).
+        apply F2; auto. intros rid Hr Eid. destruct (Hrem rid u Hr Hu1 Eid) as (k & Hk & Hor).
+        destruct HLI as (HL1 & _). destruct (HL1 _ _ Hk) as [Ek _]. destruct (HL1 _ _ HuL) as [En _].
+        assert (k = n) by congruence. subst k. destruct Hor as [X|X]; congruence.
+    + rewrite afind_aset_neq in H0 by auto. left.
+      assert (Hu1 : In u (all p1)) by (eapply I6; eauto).
+      apply F2; auto. intros rid Hr Eid. destruct (Hrem rid u Hr Hu1 Eid) as (k & Hk & _).
+      destruct HLI as (HL1 & _). destruct (HL1 _ _ Hk) as [_ Es].
+      destruct (I4 _ _ H0) as ((HL01 & _) & _). destruct (HL01 _ _ Hu) as [_ Es']. congruence.
+  - rewrite app_length. simpl. lia.
+  - intros a' L0 n u H0 Hn Hu. destruct (N.eq_dec (tsender t) a') as [<-|Hne].
+    + rewrite afind_aset_eq in H0. inversion H0; subst L0.
+      destruct (S5 _ Hn) as (Hp & Hnn & Hsame). rewrite Hsame in Hu. eapply I8; eauto.
+    + rewrite afind_aset_neq in H0 by auto. eapply I8; eauto.
+Qed.
+
+(* ---------------- reorg ---------------- *)
+Lemma with_pending_inv : forall c p ps, PoolInv c p -> PoolInv c (with_pending p ps).
+Proof. intros c p ps [I1 I2 I3 I4 I5 I6 I7 I8]. constructor; auto. Qed.
+Lemma add_verified_inv : forall c p ids, PoolInv c p -> PoolInv c (add_verified ids p).
+Proof.
+  intros c p ids [I1 I2 I3 I4 I5 I6 I7 I8]. constructor; auto. cbn [accts verified add_verified].
+  intros. apply in_or_app. right. eapply I8; eauto.
+Qed.
+Lemma reorg_spawn_inv : forall c p, PoolInv c p -> PoolInv c (reorg_spawn p).
+Proof. intros c p HI. unfold reorg_spawn. destruct (pending p); auto. destruct HI. constructor; auto. Qed.
+
+Lemma promote_in_inv : forall c a live ts p, PoolInv c p -> (forall u, In u ts -> In (tid u) (verified p)) ->
+  PoolInv c (promote_in a live ts p).
+Proof.
+  intros c a live ts p HI Hv. unfold promote_in. destruct live; auto. destruct (afind a (accts p)) as [L|] eqn:EL; auto.
+  destruct HI as [I1 I2 I3 I4 I5 I6 I7 I8]. destruct (list_promote_txs ts L) as [Et En].
+  constructor; cbn [all accts queue pending verified]; auto.
+  - apply NoDup_aset; auto.
+  - intros a' L0 H0. destruct (N.eq_dec a a') as [<-|Hne].
+    + rewrite afind_aset_eq in H0. inversion H0; subst L0. destruct (I4 _ _ EL). split; [apply list_promote_inv; auto|]. rewrite En. auto.
+    + rewrite afind_aset_neq in H0 by auto. auto.
+  - intros t Ht. destruct (I5 t Ht) as (L0 & HL0 & Hn). destruct (N.eq_dec a (tsender t)) as [Es|Hne].
+    + rewrite <- Es. rewrite afind_aset_eq. exists (fst (list_promote ts L)). split; auto. rewrite Et.
+      rewrite <- Es, EL in HL0. inversion HL0; subst. auto.
+    + rewrite afind_aset_neq by auto. eauto.
+  - intros a' L0 n t H0 Hu. destruct (N.eq_dec a a') as [<-|Hne].
+    + rewrite afind_aset_eq in H0. inversion H0; subst L0. rewrite Et in Hu. eapply I6; eauto.
+    + rewrite afind_aset_neq in H0 by auto. eapply I6; eauto.
+  - intros a' L0 n t H0 Hn Hu. destruct (N.eq_dec a a') as [<-|Hne].
+    + rewrite afind_aset_eq in H0. inversion H0; subst L0. rewrite Et in Hu.
+      destruct (list_promote_new _ _ _ Hn) as [Hp|(u & ex & Hin & Enu & Hex & Eid)]; [eapply I8; eauto|].
+      rewrite Hu in Hex. inversion Hex; subst ex. rewrite Eid. auto.
+    + rewrite afind_aset_neq in H0 by auto. eapply I8; eauto.
+Qed.
+
+Lemma firstn_app_prefix : forall (A : Type) (l1 l2 : list A) n, (length l1 <= n)%nat ->
+  firstn n (l1 ++ l2) = l1 ++ firstn (n - length l1) l2.
+Proof. intros. rewrite firstn_app. rewrite firstn_all2 by auto. auto. Qed.
+
+Lemma reorg_step_inv : forall c a vd p, PoolInv c p -> PoolInv c (reorg_step a vd p).
+Proof.
+  intros c a vd p HI. unfold reorg_step. destruct (find_pend a (pending p)) as [e|]; auto.
+  destruct (p_stage e) as [|proms|prs proms|ids].
+  - destruct (match (if p_live e then afind a (accts p) else None) with Some L => get_promotable L | None => [] end);
+      apply with_pending_inv; auto.
+  - apply with_pending_inv; auto.
+  - destruct (first_invalid vd (prs ++ proms)) as [fid|].
+    + set (fi := index_of fid (prs ++ proms)).
+      assert (HI0 : PoolInv c (add_verified (map tid (firstn fi (prs ++ proms))) p)) by (apply add_verified_inv; auto).
+      assert (HI1 : PoolInv c (if (length prs + 1 <=? fi)%nat
+                               then promote_in a (p_live e) (firstn (fi - length prs) proms) (add_verified (map tid (firstn fi (prs ++ proms))) p)
+                               else add_verified (map tid (firstn fi (prs ++ proms))) p)).
+      { destruct (length prs + 1 <=? fi)%nat eqn:El; auto. apply Nat.leb_le in El. apply promote_in_inv; auto.
+        intros u Hu. cbn [verified add_verified]. apply in_or_app. left. apply in_map.
+        rewrite firstn_app_prefix by lia. apply in_or_app. right. auto. }
+      destruct (skipn fi (prs ++ proms)); apply with_pending_inv; auto.
+    + apply with_pending_inv. apply promote_in_inv; [apply add_verified_inv; auto|].
+      intros u Hu. cbn [verified add_verified]. apply in_or_app. left. apply in_map. apply in_or_app. right. auto.
+  - destruct ids as [|id rest]; [apply with_pending_inv; auto|].
+    destruct rest; apply with_pending_inv; apply remove_tx_inv; auto.
+Qed.
+
+(* ---------------- every operation, every sequence ---------------- *)
+Lemma pool_step_inv : forall c p o, cfg_ok c -> PoolInv c p -> PoolInv c (pool_step c p o).
+Proof.
+  intros c p o Hc HI. destruct o; simpl.
+  - apply pool_add_inv; auto.
+  - apply remove_tx_inv; auto.
+  - apply reorg_spawn_inv; auto.
+  - apply reorg_step_inv; auto.
+Qed.
+
+Theorem run_inv : forall c ops, cfg_ok c -> PoolInv c (run c ops).
+Proof.
+  intros c ops Hc. unfold run. assert (G : forall p, PoolInv c p -> PoolInv c (fold_left (pool_step c) ops p)).
+  { induction ops as [|o r IH]; simpl; auto. intros p HI. apply IH. apply pool_step_inv; auto. }
+  apply G. apply empty_inv.
+Qed.
+
+(* ---- consequences, in the words of the property ---- *)
+Theorem size_bounded : forall c ops, cfg_ok c -> (length (all (run c ops)) <= max_txs c)%nat.
+Proof. intros. apply inv_size. apply run_inv; auto. Qed.
+
+Theorem per_sender_bounded : forall c ops a L, cfg_ok c -> afind a (accts (run c ops)) = Some L ->
+  (length (nonces L) <= max_per c)%nat /\ (length (txs L) >= 0)%nat.
+Proof.
+  intros c ops a L Hc HL. destruct (inv_lists _ _ (run_inv c ops Hc) _ _ HL) as ((_ & _ & _ & H & _) & _). split; [auto|lia].
+Qed.
+
+Theorem one_tx_per_sender_nonce : forall c ops t1 t2, cfg_ok c ->
+  In t1 (all (run c ops)) -> In t2 (all (run c ops)) -> tsender t1 = tsender t2 -> tnonce t1 = tnonce t2 -> t1 = t2.
+Proof.
+  intros c ops t1 t2 Hc H1 H2 Es En. pose proof (run_inv c ops Hc) as HI.
+  destruct (inv_all_in_list _ _ HI t1 H1) as (L1 & HL1 & Hn1). destruct (inv_all_in_list _ _ HI t2 H2) as (L2 & HL2 & Hn2).
+  rewrite Es in HL1. rewrite HL1 in HL2. inversion HL2; subst. rewrite En in Hn1. congruence.
+Qed.
+
+Theorem processables_gap_free_verified : forall c ops a L, cfg_ok c -> afind a (accts (run c ops)) = Some L ->
+  gap_free (procs L) /\
+  forall n, In n (procs L) -> exists t, afind n (txs L) = Some t /\ In t (all (run c ops)) /\
+                                       tsender t = a /\ tnonce t = n /\ In (tid t) (verified (run c ops)).
+Proof.
+  intros c ops a L Hc HL. pose proof (run_inv c ops Hc) as HI.
+  destruct (inv_lists _ _ HI _ _ HL) as ((H1 & H2 & H3 & H4 & H5 & H6) & _). split; auto.
+  intros n Hn. pose proof (H6 n Hn) as Hnn. apply H2 in Hnn. destruct (afind n (txs L)) as [t|] eqn:Et; [|congruence].
+  exists t. destruct (H1 _ _ Et). repeat split; auto.
+  - eapply inv_list_in_all; eauto.
+  - eapply inv_verified; eauto.
+Qed.
+
+(* the ghost set really is "answered not-invalid by the verifier during a reorg step": it only grows in SReady steps,
+   by ids the verdict of that step does not mark invalid *)
+Lemma find_none_prefix : forall (f : tx -> bool) l x, find f l = Some x ->
+  forall u, In u (firstn (index_of (tid x) l) l) -> f u = false \/ tid u = tid x.
+Proof.
+  induction l as [|y r IH]; simpl; intros x Hf u Hu; [discriminate|].
+  destruct (f y) eqn:Ey.
+  - inversion Hf; subst. rewrite N.eqb_refl in Hu. simpl in Hu. contradiction.
+  - destruct (tid y =? tid x) eqn:Eid; simpl in Hu; [contradiction|]. destruct Hu as [<-|Hu]; auto.
 Qed.
